@@ -215,6 +215,19 @@ Theorem prog_hyps_satisfiable :
 Proof. exact prog_example. Qed.
 Print Assumptions prog_hyps_satisfiable.
 
+(* every object created by a program whose additions stay within the bound (step_within: the lcm form
+   of every addition, of every partial sum of sum() and of from_string) stands for the sum of the
+   components it prints; with frac_text_value_rt it keeps its value through its text *)
+Theorem prog_inv : forall prog env env',
+  Forall frac_inv env -> prog_within env prog -> prog_run env prog = Some env' -> Forall frac_inv env'.
+Proof. exact prog_inv_lemma. Qed.
+Print Assumptions prog_inv.
+
+Theorem prog_within_satisfiable :
+  prog_within [] [SParse "1/4+1/16"; SNew 1 32 None; SAdd 0 1; SSum [0%nat; 2%nat]].
+Proof. exact prog_inv_example. Qed.
+Print Assumptions prog_within_satisfiable.
+
 (* known finding C07-K1, the exact boundary of "durations keep their value through strings" in the model
    that carries the behaviour: 0/4 + 0/8 prints as the empty text, which is not read back *)
 Theorem frac_zero_sum_text_refuted :
